@@ -7,6 +7,8 @@ import PdshVerif.Opt.WcollPaths
 import PdshVerif.Opt.WcollAssemble
 import PdshVerif.Opt.WcollSplit
 import PdshVerif.Opt.WcollTargets
+import PdshVerif.Opt.Settings
+import PdshVerif.Dsh.Exit
 
 /-!
 # C10  The target list is assembled faithfully from every source
@@ -34,7 +36,8 @@ against its own characterisation (`order_of_sources`), the check compares it wit
 specification's `assemble` on every generated command line.
 -/
 namespace PdshVerif.Props.C10
-open PdshVerif.Opt PdshVerif.Opt.Wcoll
+open PdshVerif.Opt hiding Str Cfg Env Fixes
+open PdshVerif.Opt.Wcoll
 
 /-- for every file system, include graph (cycles, diamonds, self-includes), source list, stdin and
 environment, the reader never runs out of its fuel `|fs|+1`: reading terminates -/
@@ -450,5 +453,55 @@ example : targetDomain Cfg.repaired .whole siteFS siteMatch (fun _ => false)
   decide
 
 end EndToEnd
+
+/-! ## the empty list: "no remote hosts specified", exit 1 -/
+section EmptyList
+open PdshVerif.Hostlist PdshVerif.Opt.Targets
+
+/-- no target segment (only exclusions and filters) and no WCOLL: `opt->wcoll` stays NULL -/
+theorem no_source_no_list (cfg : Cfg) (env : Exclude.Env) (segs : List Seg)
+    (hok : ∀ s ∈ segs, SegOk cfg env s) (hfine : ∀ s ∈ segs, SegFine cfg s)
+    (hnone : segs.any Seg.isTgt = false) :
+    targetList cfg env none (segs.map Seg.text) = .nohosts := by
+  obtain ⟨_, _, _, i4⟩ := foldl_step_spec cfg segs {} [] (by simp [WInv]) hfine
+  rw [hnone] at i4
+  have hw : (segs.foldl (step cfg) {}).wcoll = none := by
+    cases h : (segs.foldl (step cfg) {}).wcoll with
+    | none => rfl
+    | some e => rw [h] at i4; simp at i4
+  unfold targetList
+  rw [argsProcess_segs cfg env segs {} hok]
+  simp only [hw, Exclude.finish]
+
+/-- what `opt_verify` asks of the list: `opt->wcoll != NULL && hostlist_count (opt->wcoll) != 0` -/
+def listPresent : Exclude.Res → Bool
+  | .ok (_ :: _) => true
+  | _ => false
+
+/-- EMPTY LIST IS REFUSED: when the list stayed NULL (no source of targets) or every target was excluded or
+filtered out, `opt_verify` (C18's model, the list's presence supplied by this property) fails, `opt_args`
+ends with exit 1, and the exit status of a refused run is 1 (C08 `refused_exit1`), whatever the other settings -/
+theorem empty_list_exit1 (r : Exclude.Res) (hr : r = .nohosts ∨ r = .ok [])
+    (fx : PdshVerif.Opt.Fixes) (d : PdshVerif.Opt.Defaults) (p : PdshVerif.Opt.Pers) (c : PdshVerif.Opt.Cfg)
+    (nops : Nat) (hplain : c.pcpServer = false ∧ c.pcpClient = false)
+    (fx' : PdshVerif.Dsh.Exit.Fixes) (fl : PdshVerif.Dsh.Exit.Flags) :
+    PdshVerif.Opt.optVerify fx d p { c with hasWcoll := listPresent r } nops = false ∧
+    PdshVerif.Dsh.Exit.mainExit fx' fl .refused = 1 := by
+  refine ⟨?_, rfl⟩
+  have hl : listPresent r = false := by rcases hr with rfl | rfl <;> rfl
+  simp [PdshVerif.Opt.optVerify, PdshVerif.Opt.optVerifyPlain, hl, hplain.1, hplain.2]
+
+/-- `pdsh -w n1,n2 -x n[1-2]`: every target is excluded — through `target_list_end_to_end` the list is empty -/
+example : targetList Cfg.repaired (envOf .whole [] (fun _ _ => none) (fun _ => false)
+      [.cw (.tgt (.plain "n1".toList)), .cw (.tgt (.plain "n2".toList)),
+       .cw (.xcl (.br "n".toList [⟨"1".toList, some "2".toList⟩] [] none))] none) none
+    ["n1".toList, "n2".toList, "-n[1-2]".toList] = .ok [] := by
+  have h := target_list_end_to_end Cfg.repaired rfl rfl rfl .whole [] (fun _ _ => none) (fun _ => false)
+    [.cw (.tgt (.plain "n1".toList)), .cw (.tgt (.plain "n2".toList)),
+     .cw (.xcl (.br "n".toList [⟨"1".toList, some "2".toList⟩] [] none))] none (by decide)
+  rw [show (none : Option (List Char × List Spec.Word)).map (·.1) = none from rfl] at h
+  exact h.trans (by decide)
+
+end EmptyList
 
 end PdshVerif.Props.C10
